@@ -2,6 +2,7 @@ package ordered
 
 import (
 	"fmt"
+	"strconv"
 
 	"gopkg.in/yaml.v3"
 )
@@ -255,8 +256,14 @@ func canonicalMapKey(n *yaml.Node) (string, error) {
 			// Canonicalise to decimal.
 			return fmt.Sprintf("%d", x), nil
 		case "!!float":
-			// Canonicalise to scientific notation.
+			// Canonicalise to scientific notation, with as many digits as it
+			// takes to tell the value apart from every other float (%e keeps
+			// six, which makes distinct keys such as 1.00000001 and
+			// 1.00000002 collide).
 			// Don't handle Inf or NaN specially, as they will be quoted.
+			if f, ok := x.(float64); ok {
+				return strconv.FormatFloat(f, 'e', -1, 64), nil
+			}
 			return fmt.Sprintf("%e", x), nil
 		default:
 			// Assume the value is already a suitable key.
